@@ -3,7 +3,8 @@
     carrier [T] and an arbitrary binary operation [op] (no algebraic law is assumed, in particular not
     commutativity), hence bit for bit on binary64 and with operand order preserved for - and /.
     [calc_broadcast_shape] and the wiring tables are REGENERATED from the Rust source on every run (Tie A);
-    the ten match arms in [broadcast] are hand-written and tied to the code by the correspondence check. *)
+    the ten match arms in [broadcast] are hand-written; they are tied to the code by the correspondence check and, since the
+    third round of the loop translator, by Tie A as well: [C12_model_is_source_broadcast] at the end of this file. *)
 From Coq Require Import String.
 From Coq Require Import List Arith Bool ZArith.
 From Compute Require Import Base.Ops Base.ListMat Model.Broadcast Spec.Broadcast Spec.BroadcastClassifier.
@@ -220,3 +221,39 @@ Example C12_example_empty_matrix :
   broadcast Z.sub (mkmat 0 0 []) (mkmat 1 3 [1; 2; 3]%Z) = None /\
   vec_to_matrix (@nil Z) = None /\ matrix_new (@nil Z) 0 3 = None /\ matrix_new (@nil Z) 0 0 = Some (mkmat 0 0 []).
 Proof. repeat split. Qed.
+
+(** ** Tie A for the ten arms of [broadcast_op!] (regenerated from src/linalg/array/broadcast.rs and matrix.rs on every run by
+    tools/tiea/broadcast_arms.py): the arms ARE the source.  [src_broadcast] is the macro body translated statement for
+    statement — the [match] on the pair returned by [calc_broadcast_shape] with its patterns in source order, the clones, the
+    loops over rows with [apply_along_row] / [iter_mut().zip(..).for_each(..)], the double loops [new[i][j] = ..] on a zero
+    matrix, the scalar arms, the panic of the default arm — on ONE flat row-major [data] (a row is the window
+    [data[i * ncols .. (i + 1) * ncols]] guarded by [i < nrows], read with [rs_slice] and written back with [rs_put_slice]); the
+    model works on rows.  A [Matrix] of the generated text is [zm m] = (nrows, ncols, data) with the dimensions in [Z]; the enum
+    [Broadcast] is [rs_Broadcast] ([bz]).  Abstract parameters instantiated by the models: [calc_z] = the regenerated classifier,
+    [zeros_z] = [Matrix::zeros] = [matrix_new] of zeros, [matmat_z] = [$matmatfn], [op] = [$op] on f64, [scalar_mat_z] /
+    [mat_scalar_z] = [$op] between an f64 and a Matrix.  Hypothesis: the struct invariant [data.len() = nrows * ncols] of both
+    operands.  No law of [op] is used: any binary operation, operand order as in the source. *)
+From Coq Require Import QArith.
+From Compute Require Import Base.RsExpr Base.RsExprMut Base.RsExprMore Generated.broadcast_arms Proofs.TieA_broadcast_arms.
+Local Close Scope Q_scope.
+Theorem C12_model_is_source_broadcast :
+  forall (T : Type) (O : Ops T) (op : T -> T -> T) (m1 m2 : mat T),
+    length (dat m1) = nr m1 * nc m1 -> length (dat m2) = nr m2 * nc m2 ->
+    src_broadcast O (calc_z (T := T)) (zeros_z O) (matmat_z op) op (scalar_mat_z op) (mat_scalar_z op) (zm m1) (zm m2)
+    = option_map zm (broadcast op m1 m2).
+Proof. exact @tiea_broadcast. Qed.
+(** the translated [Matrix] methods the arms use, against the rows view: [m[i]] is row [i] ([None] = the assertion [i < nrows]
+    fails), [apply_along_row] maps one row *)
+Theorem C12_model_is_source_index :
+  forall (T : Type) (O : Ops T) (d : list T) (nr nc i : nat), length d = nr * nc ->
+    src_index O d (Z.of_nat nr) (Z.of_nat nc) (Z.of_nat i) = nth_error (unflatten d nr nc) i.
+Proof. exact @index_rows. Qed.
+(** not vacuous: a 2x2 matrix minus a row vector (operand order visible), and a column minus a row on a zero matrix, on the rationals *)
+Example C12_model_is_source_example :
+  src_broadcast QO calc_z (zeros_z QO) (matmat_z (sub QO)) (sub QO) (scalar_mat_z (sub QO)) (mat_scalar_z (sub QO))
+    (2%Z, 2%Z, [10; 20; 30; 40]%Q) (1%Z, 2%Z, [1; 2]%Q) = Some (2%Z, 2%Z, [9; 18; 29; 38]%Q) /\
+  src_broadcast QO calc_z (zeros_z QO) (matmat_z (sub QO)) (sub QO) (scalar_mat_z (sub QO)) (mat_scalar_z (sub QO))
+    (2%Z, 1%Z, [10; 20]%Q) (1%Z, 3%Z, [1; 2; 3]%Q) = Some (2%Z, 3%Z, [9; 8; 7; 19; 18; 17]%Q) /\
+  src_broadcast QO calc_z (zeros_z QO) (matmat_z (sub QO)) (sub QO) (scalar_mat_z (sub QO)) (mat_scalar_z (sub QO))
+    (2%Z, 2%Z, [10; 20; 30; 40]%Q) (1%Z, 3%Z, [1; 2; 3]%Q) = None.
+Proof. vm_compute. repeat split; reflexivity. Qed.
